@@ -6,7 +6,7 @@ INSTANCE Layout
 File == JsonDeserialize(IOEnv.TRACE_FILE)
 CONSTANT EnabledDevs
 
-\* r = [tree : seq of nodes, at, depth, got : seq of ids, slash : BOOLEAN, badprops : seq of
+\* r = [tree : seq of nodes, at, depth, body (prop | allprop | nobody | propname), got : seq of ids, slash : BOOLEAN, badprops : seq of
 \*      property names, status, frontend, prefix]
 Tree(r) == {r.tree[k] : k \in DOMAIN r.tree}
 Judge(r, i) ==
@@ -17,7 +17,7 @@ Judge(r, i) ==
                    \* hrefs inside property values (owner, principal, home sets ...) dereference too
                    \cup {"href-in-property-" \o r.badprops[k] \o "-does-not-resolve" : k \in DOMAIN r.badprops} IN
     {[k |-> IF d \in EnabledDevs THEN "known" ELSE "viol", i |-> i, dev |-> d] :
-        d \in {"layout:" \o c \o ":in-" \o Node(t, r.at).kind \o ":depth" \o ToString(r.depth) : c \in cl}}
+        d \in {"layout:" \o c \o ":in-" \o Node(t, r.at).kind \o ":depth" \o ToString(r.depth) \o ":" \o r.body : c \in cl}}
 
 VARIABLES idx, done
 vars == <<idx, done>>
